@@ -22,7 +22,8 @@ echo "$with" | grep -q "^ok" && WITH_FAILS=0 || WITH_FAILS=1
 rm "$W/$PKG/zz_seed_demo_test.go"
 # the suite binds fixed TCP ports: run it in a private network namespace so that neither other
 # test runs nor TIME_WAIT sockets make it fail for unrelated reasons
-suite=$(cd "$W" && unshare -n -- bash -c "ip link set lo up 2>/dev/null; go test -count=1 -vet=off -timeout 15m -run '$TESTS' './$PKG'" 2>&1 | tail -3)
+NS="unshare -n --"; [ -n "${NONETNS:-}" ] && NS=""   # the multicast suite needs a multicast route: NONETNS=1
+suite=$(cd "$W" && $NS bash -c "ip link set lo up 2>/dev/null; go test -count=1 -vet=off -timeout 15m -run '$TESTS' ${SKIP:+-skip '$SKIP'} './$PKG'" 2>&1 | tail -3)
 echo "$suite" | grep -q "^ok" && SUITE_OK=1 || SUITE_OK=0
 echo "demo on unchanged tree passes: $BASE_OK; demo with change fails: $WITH_FAILS; existing tests pass with change: $SUITE_OK"
 # run the check against /repo with the change applied
